@@ -175,8 +175,11 @@ def fam_c10(tier, rng):
         for extra in (0, 1, 2, 5):
             for dur in ([0], [1], [1000], [0, 700, 5]):
                 for tl in (1, 2, 1000):
-                    for nq in (1, 2):
-                        if tier == "quick" and rng.random() > 0.1:
+                    for nq in (1, 2, 3):
+                        # several queues share the budget and the slots; the tight cases (budget just above the number of
+                        # slots, a backlog in every queue, bodies that end in the same loop step) are always there
+                        tight = nq >= 2 and tl == 2 and m in (2, 3) and extra in (1, 2) and dur in ([1000], [0])
+                        if tier == "quick" and not tight and rng.random() > 0.08:
                             continue
                         actors = {f"a{q}": {"queue": f"q{q}"} for q in range(nq)}
                         jobs = [{"id": f"m{k}", "actor": f"a{k % nq}", "script": [rng.choice(["ok", "ok", "raise", "cancelled"])],
